@@ -30,7 +30,7 @@ func TestMain(m *testing.M) {
 	hx.Main(m)
 }
 
-const ruleC32 = "generated concurrent programs against a real gnet.ConnectionPool listening on 127.0.0.1, or 1 in 4 running without a listener (RunOffline, outgoing connections only) (binary built with the race detector; every report is classified by the two functions that touch the shared word, documented patterns are listed as known findings, anything else fails the run): 2-6 worker goroutines each run a drawn list of 3-12 operations {Connect to one of 3 raw TCP peers, raw inbound dial (optionally sending a valid frame, an oversized length prefix or garbage, optionally closing at once), Disconnect of a known / unknown address, SendMessage, BroadcastMessage, GetConnections, Size, GetConnection, SendPings, GetStaleConnections, ListeningAddress, IsMaxOutgoingDefaultConnectionsReached, peer-side close}, each preceded by a drawn pause {none, yield, 50us, 500us, 2ms}; one goroutine calls Shutdown at a drawn position while the others are still running; the pool's callbacks and the send-result channel are serviced as the daemon does; oracle: no race report, no panic, every call returns within 20 s (a hang is reported only if the same program hangs again), every strand-based call that starts after Shutdown returned yields the pool-closed error, Shutdown returns, afterwards no connection is registered (verif hook) and every peer socket has been closed by the pool; non-trivial = at least 2 workers were still issuing operations when Shutdown started and at least one connection was established; distinct by program text"
+const ruleC32 = "generated concurrent programs against a real gnet.ConnectionPool listening on 127.0.0.1, or 1 in 4 running without a listener (RunOffline, outgoing connections only), or with a listening port that is already taken so that Run fails at once (binary built with the race detector; every report is classified by the two functions that touch the shared word, documented patterns are listed as known findings, anything else fails the run): 2-6 worker goroutines each run a drawn list of 3-12 operations {Connect to one of 3 raw TCP peers, raw inbound dial (optionally sending a valid frame, an oversized length prefix or garbage, optionally closing at once), Disconnect of a known / unknown address, SendMessage, BroadcastMessage, GetConnections, Size, GetConnection, SendPings, GetStaleConnections, ListeningAddress, IsMaxOutgoingDefaultConnectionsReached, peer-side close}, each preceded by a drawn pause {none, yield, 50us, 500us, 2ms}; one goroutine calls Shutdown at a drawn position while the others are still running; the pool's callbacks and the send-result channel are serviced as the daemon does; oracle: no race report, no panic, every call returns within 20 s (a hang is reported only if the same program hangs again), every strand-based call that starts after Shutdown returned yields the pool-closed error, Shutdown returns, afterwards no connection is registered (verif hook) and every peer socket has been closed by the pool; non-trivial = at least 2 workers were still issuing operations when Shutdown started and at least one connection was established; distinct by program text"
 
 // vmsg is a wire message of the harness: a 4-byte length prefixed payload, handler counts deliveries.
 type vmsg struct {
@@ -59,8 +59,16 @@ func (m *vmsg) Decode(b []byte) (uint64, error) {
 	m.Payload = append([]byte(nil), b[4:4+n]...)
 	return 4 + uint64(n), nil
 }
+
+// burstSink, when set, receives the payload of every handled message whose first byte is 0xB0 (burst test of C22)
+var burstSink func(payload []byte)
+
 func (m *vmsg) Handle(c *gnet.MessageContext, state interface{}) error {
 	atomic.AddInt64(&handled, 1)
+	if f := burstSink; f != nil && len(m.Payload) == 5 && m.Payload[0] == 0xB0 {
+		f(m.Payload)
+		return nil
+	}
 	if len(m.Payload) > 0 && m.Payload[0] == 0xEE {
 		return errors.New("handler asks for a disconnect")
 	}
@@ -77,6 +85,7 @@ type program struct {
 	Workers     [][]op `json:"workers"`
 	ShutdownBy  int    `json:"shutdown_by"`  // worker index
 	ShutdownPos int    `json:"shutdown_pos"` // before which op of that worker
+	ListenFails bool   `json:"listen_fails"` // the listening port is taken: Run returns an error at once; the pool object must still answer calls and shut down
 	Offline     bool   `json:"offline"`      // the pool runs without a listener (RunOffline, as the daemon does when incoming connections are disabled); inbound dials become outgoing connects
 }
 
@@ -94,6 +103,7 @@ func genProgram(t *rapid.T) program {
 		p.Workers = append(p.Workers, ops)
 	}
 	p.Offline = rapid.IntRange(0, 3).Draw(t, "offline") == 0
+	p.ListenFails = !p.Offline && rapid.IntRange(0, 7).Draw(t, "listen_fails") == 3
 	p.ShutdownBy = rapid.IntRange(0, nw-1).Draw(t, "shutdown_by")
 	p.ShutdownPos = rapid.IntRange(0, len(p.Workers[p.ShutdownBy])).Draw(t, "shutdown_pos")
 	return p
@@ -227,6 +237,10 @@ func runProgram(p program) outcome {
 		peers = append(peers, rp)
 	}
 	cfg.DefaultConnections = []string{peers[0].ln.Addr().String()}
+	if p.ListenFails {
+		cfg.Port = uint16(peers[1].ln.Addr().(*net.TCPAddr).Port) // occupied
+	}
+	noListener := p.Offline || p.ListenFails
 	pool, err := gnet.NewConnectionPool(cfg, nil)
 	if err != nil {
 		out.violation = "HARNESS: " + err.Error()
@@ -256,14 +270,14 @@ func runProgram(p program) outcome {
 	}()
 	// wait for the listener (through the public query, as the repository's own tests do)
 	var laddr string
-	for i := 0; i < 2000 && !p.Offline; i++ {
+	for i := 0; i < 2000 && !noListener; i++ {
 		if a, err := pool.ListeningAddress(); err == nil && a != nil {
 			laddr = a.String()
 			break
 		}
 		time.Sleep(time.Millisecond)
 	}
-	if laddr == "" && !p.Offline {
+	if laddr == "" && !noListener {
 		out.violation = "HARNESS: pool did not start listening"
 		return out
 	}
@@ -290,7 +304,7 @@ func runProgram(p program) outcome {
 		after := atomic.LoadInt32(&shutdownReturned) == 1
 		var err error
 		strandOp := true
-		if p.Offline && o.Kind == "dial_in" {
+		if noListener && o.Kind == "dial_in" {
 			o.Kind = "connect"
 		}
 		switch o.Kind {
@@ -568,6 +582,9 @@ func TestC32_PoolConcurrency(t *testing.T) {
 		r.CaseS(nt, string(b))
 		if o.lagging {
 			r.Count("harness_socket_counters_lagging")
+		}
+		if p.ListenFails {
+			r.Count("programs_whose_listen_failed")
 		}
 		if p.Offline {
 			r.Count("programs_without_listener")
